@@ -54,6 +54,16 @@ pub fn run(cx: &mut Ctx) {
         check_prog(cx, &b, &[Mode::Seq, Mode::Par(1), Mode::Par(3)], &o);
     }
 
+    // the LEFT side is a streamed file source (its lineage, incl. the file source, becomes the left sub-plan)
+    for k in KINDS {
+        for n in [0usize, 1, 4] {
+            let left: Vec<V> = (0..n as i64).map(|i| V::pair(V::I(i % 2), V::I(i))).collect();
+            let right = Prog { shape: Shape::KV, src: vec![V::pair(V::I(0), V::I(7)), V::pair(V::I(2), V::I(8))], steps: vec![] };
+            let p = Prog { shape: Shape::KV, src: left, steps: vec![Step::MapValues(Fn_::Add(1)), Step::Join(k, Box::new(right))] };
+            for per in [0usize, 1, 3] { check_prog_file(cx, &p, per, &[Mode::Seq, Mode::Par(2)], &o); }
+        }
+    }
+
     // random: transformed sides (incl. gbk / combine prefixes), downstream steps, occasional nested joins
     let rounds = cx.budget(300, 6000);
     let mut done = 0;
